@@ -27,7 +27,7 @@ STUBS = {
     'Pistache::Async::Deferred::resolve': {'expr': 'vs_deferred_resolve($this, $0)'}, 'Pistache::Async::Deferred::reject': {'expr': 'vs_deferred_reject($this)'},
     'Pistache::Aio::Reactor::modifyFd': {'expr': 'vs_modifyFd($2)'},
     'move': {'expr': '($0)'},
-    'ctor:Pistache::Async::Deferred<long>/1': 'vs_deferred_move',
+    'ctor:Pistache::Async::Deferred<long>/copy': 'vs_deferred_move',
 'operator||Pistache::Polling::NotifyOn,Pistache::Polling::NotifyOn': {'expr': '(($0) | ($1))'},
          'field:std::pair<int, std::deque<Pistache::Tcp::Transport::WriteEntry>>::second': '(*($)->q)'}
 GUARDED_STUBS = {'struct vs_ulock': 'vs_ulock_dtor'}
